@@ -10,6 +10,7 @@ import (
 	"mvdan.cc/sh/v3/syntax"
 
 	rt "github.com/taskctl/taskctl/internal/verifrt"
+	"github.com/taskctl/taskctl/pkg/output"
 	"github.com/taskctl/taskctl/pkg/runner"
 )
 
@@ -41,7 +42,19 @@ var e11Consumer bool
 var e11ConsumerSaw, e11ConsumerSawDefault string
 var e11ExportName string
 
+var e11Ansi bool
+var e11AnsiTexts = []string{"p", "\x1b[32mq\x1b[0m", "r\n\x1b[1ms", "\x1b[31m"}
+
 func e11InterpRun(r *interp.Runner, ctx context.Context, node syntax.Node) error {
+	if e11Ansi && !e11Consumer {
+		// coloured output: one of a few concrete texts with escape sequences
+		k := len(e11Printed)
+		out := e11AnsiTexts[rt.Concrete(rt.Choice("ansi-text."+e11D[k], len(e11AnsiTexts)))]
+		e11Out.Write([]byte(out))
+		e11PrintedErr = append(e11PrintedErr, false)
+		e11Printed = append(e11Printed, out)
+		return nil
+	}
 	if e11Consumer {
 		// a later task: what it finds under the producer's exported name
 		e11ConsumerSaw = r.Env.Get(e11ExportName).Str
@@ -74,6 +87,14 @@ type e11Sink struct{}
 
 func (e11Sink) Write(p []byte) (int, error) { return len(p), nil }
 
+// VerifC11Ansi: the same with coloured output under the prefixed output format (the decorator strips
+// escape sequences from what it shows; what is captured and exported must still be every byte).
+func VerifC11Ansi(nc int) {
+	e11Ansi = true
+	VerifC11Exec(nc)
+	e11Ansi = false
+}
+
 func VerifC11Exec(nc int) {
 	vInstallExecStubs()
 	rt.Redirect("mvdan.cc/sh/v3/interp.StdIO", e11StdIO)
@@ -91,6 +112,9 @@ func VerifC11Exec(nc int) {
 	rt.Assert(err == nil, "C11.task-built")
 	r, _ := runner.NewTaskRunner()
 	r.Stdout, r.Stderr = e11Sink{}, e11Sink{}
+	if e11Ansi {
+		r.OutputFormat = output.FormatPrefixed
+	}
 	rt.Assert(r.Run(t) == nil, "C11.exec.producer-ran")
 	rt.Assert(len(e11Printed) == nc, "C11.exec.every-command-ran")
 	all := ""
